@@ -285,8 +285,8 @@ def product_cases(tier):
                                     k += 1
                                     if tier == "quick" and k % 5:
                                         continue
-                                    sv = {"status": status, "framing": framing, "keep": keep, "extra": extra, "seg": seg, "n": 40, "late": (None, 9, 12, 0)[k % 4], "trap": bool(k % 2)}
-                                    yield {"kind": "own", "maxsize": maxsize, "retries": retries, "requests": [{"m": m, "b": b}, {"m": "GET", "b": "read"}, {"m": ("GET", "POST")[k % 2], "b": "stream"}], "server": [sv]}
+                                    sv = {"status": status, "framing": framing, "keep": keep, "extra": extra, "seg": seg, "n": 40, "late": core.pick(k, 1, (None, 9, 12, 0)), "trap": core.pick(k, 2, (True, False))}
+                                    yield {"kind": "own", "maxsize": maxsize, "retries": retries, "requests": [{"m": m, "b": b}, {"m": "GET", "b": "read"}, {"m": core.pick(k, 3, ("GET", "POST")), "b": "stream"}], "server": [sv]}
 
 
 def overlap_cases(tier):
